@@ -156,6 +156,8 @@ class FnTranslator:
         if isinstance(e, ast.UnaryOp) and isinstance(e.op, ast.Not):
             t, f = self.cond(e.operand, env)
             return f"(!{t})", f
+        if isinstance(e, ast.Name) and e.id in self.lists:
+            return f"(!{e.id}.isEmpty)", []                           # truth value of a list
         if isinstance(e, (ast.Call, ast.Name, ast.BinOp)):
             t, f = self.expr(e, env)                                  # truth value of an int
             return f"decide ({t} ≠ (0 : Int))", f
